@@ -52,13 +52,13 @@ namespace avel {
 
 
 
-    constexpr std::uint32_t max_width_8u  = 64;
-    constexpr std::uint32_t max_width_16u = 32;
+    constexpr std::uint32_t max_width_8u  = 32;
+    constexpr std::uint32_t max_width_16u = 16;
     constexpr std::uint32_t max_width_32u = 16;
     constexpr std::uint32_t max_width_64u = 8;
 
-    constexpr std::uint32_t max_width_8i  = 64;
-    constexpr std::uint32_t max_width_16i = 32;
+    constexpr std::uint32_t max_width_8i  = 32;
+    constexpr std::uint32_t max_width_16i = 16;
     constexpr std::uint32_t max_width_32i = 16;
     constexpr std::uint32_t max_width_64i = 8;
 
